@@ -51,6 +51,10 @@ def run(c):
                       'a configuration that fails to build, or whose run aborts (acquire/release checker) or truncates, violates the property',
                       'raw masked data, struct sizes and randomness consumption are not part of the comparison (only functional outputs and documented public fields)']
     cfgs = ['rel'] + BACKENDS + (all_configs() if th else SHARES_Q) + CHECKER
+    def try_build(fl):
+        try: build(fl, allow_fail=True)
+        except Exception: pass
+    with cf.ThreadPoolExecutor(max_workers=8) as ex: list(ex.map(try_build, cfgs))
     seen = []
     for fl in cfgs:
         if fl in seen: continue
